@@ -93,45 +93,77 @@ theorem lookup_mem {β : Type} (l : List (String × β)) (n : String) (v : β)
       rw [hab'] at h
       exact List.mem_cons_of_mem _ (ih h)
 
-theorem chunksAux_len6 : ∀ (fuel : Nat) (l : Bits), l.length % 6 = 0 → l.length < fuel →
-    ∀ c ∈ chunksAux 6 fuel l, c.length = 6 := by
+/-- a chunk the code and the standard read alike: a whole character, or all-zero padding bits -/
+def ChunkOK (c : Bits) : Prop := c.length = 6 ∨ ∀ b ∈ c, b = false
+
+theorem fromBytes_zeros (c : Bits) (h : ∀ b ∈ c, b = false) : fromBytes c = 0 ∧ toNat c = 0 := by
+  have hc : c = zeros c.length := by
+    unfold zeros
+    exact List.eq_replicate_iff.mpr ⟨rfl, h⟩
+  constructor
+  · unfold fromBytes padRight8
+    rw [toNat_append, toNat_zeros, hc, toNat_zeros]; simp
+  · rw [hc, toNat_zeros]
+
+theorem chunkOK_shift (c : Bits) (h : ChunkOK c) : fromBytes c >>> 2 = toNat c := by
+  rcases h with h | h
+  · have := fromBytes_shift c
+    rw [h] at this; exact this
+  · obtain ⟨h1, h2⟩ := fromBytes_zeros c h
+    rw [h1, h2]; rfl
+
+theorem chunksAux_ok : ∀ (fuel : Nat) (l : Bits), l.length < fuel →
+    (∀ b ∈ l.drop (l.length / 6 * 6), b = false) →
+    ∀ c ∈ chunksAux 6 fuel l, ChunkOK c := by
   intro fuel
   induction fuel with
-  | zero => intro l _ h; omega
+  | zero => intro l h; omega
   | succ fuel ih =>
-    intro l h6 hlt c hc
+    intro l hlt hz c hc
     cases l with
     | nil => simp [chunksAux] at hc
     | cons b tl =>
       simp only [chunksAux, List.mem_cons] at hc
-      simp only [List.length_cons] at h6 hlt
-      rcases hc with rfl | hc
-      · simp only [List.length_take, List.length_cons]; omega
-      · apply ih ((b::tl).drop 6) _ _ c hc
-        · simp only [List.length_drop, List.length_cons]; omega
-        · simp only [List.length_drop, List.length_cons]; omega
+      by_cases h6 : 6 ≤ (b :: tl).length
+      · rcases hc with rfl | hc
+        · left
+          simp only [List.length_take]; omega
+        · apply ih ((b :: tl).drop 6) _ _ c hc
+          · simp only [List.length_drop]
+            simp only [List.length_cons] at hlt h6 ⊢; omega
+          · intro x hx
+            apply hz x
+            rw [List.drop_drop, List.length_drop] at hx
+            have e : 6 + ((b :: tl).length - 6) / 6 * 6 = (b :: tl).length / 6 * 6 := by omega
+            rw [e] at hx; exact hx
+      · have e : (b :: tl).length / 6 * 6 = 0 := by omega
+        rw [e, List.drop_zero] at hz
+        have ht : List.take 6 (b :: tl) = b :: tl := List.take_of_length_le (by omega)
+        have hd : List.drop 6 (b :: tl) = [] := List.drop_of_length_le (by omega)
+        rw [ht, hd] at hc
+        rcases hc with rfl | hc
+        · right; exact hz
+        · cases fuel <;> simp [chunksAux] at hc
 
-theorem chunks_len6 (bits : Bits) (h : bits.length % 6 = 0) :
-    ∀ c ∈ chunks 6 bits, c.length = 6 :=
-  chunksAux_len6 _ bits h (Nat.lt_succ_self _)
+theorem chunks_ok (bits : Bits) (h : ∀ b ∈ bits.drop (bits.length / 6 * 6), b = false) :
+    ∀ c ∈ chunks 6 bits, ChunkOK c :=
+  chunksAux_ok _ bits (Nat.lt_succ_self _) h
 
-theorem ascii6Chars_eq (cs : List Bits) (h : ∀ c ∈ cs, c.length = 6) :
+theorem ascii6Chars_eq (cs : List Bits) (h : ∀ c ∈ cs, ChunkOK c) :
     ascii6Chars cs = (cs.map fun c => sixToAscii (toNat c)).takeWhile (· ≠ 64) := by
   induction cs with
   | nil => rfl
   | cons c cs ih =>
-    have hc : c.length = 6 := h c (by simp)
-    have e : fromBytes c >>> 2 = toNat c := by
-      have := fromBytes_shift c
-      rw [hc] at this; exact this
+    have e : fromBytes c >>> 2 = toNat c := chunkOK_shift c (h c (by simp))
     have ih' := ih (fun c hc => h c (List.mem_cons_of_mem _ hc))
     simp only [ascii6Chars, e, List.map_cons, List.takeWhile_cons, sixToAscii, ih']
     split <;> simp_all
 
-theorem decodeAscii6_eq_text (bits : Bits) (h : bits.length % 6 = 0) :
+theorem decodeAscii6_eq_text (bits : Bits)
+    (h : ∀ b ∈ bits.drop (bits.length / 6 * 6), b = false) :
     decodeAscii6 bits = text bits := by
   unfold decodeAscii6 text
-  rw [ascii6Chars_eq _ (chunks_len6 bits h)]
+  rw [ascii6Chars_eq _ (chunks_ok bits h)]
 
 theorem toInt_range8 (bits : Bits) (h : bits.length = 8) :
     -128 ≤ toInt bits ∧ toInt bits ≤ 127 := by
@@ -238,7 +270,7 @@ theorem decodeRaw_signed_float (f : Field) (bits : Bits) (hs : f.signed = true)
 width the decoded value is the one the standard assigns. -/
 theorem decodeField_spec (env : Env) (E : EnumInfo) (htab : TablesOk env E = true)
     (f : Field) (k : Kind) (hk : kindOf E f = some k) (bits : Bits) (hlen : bits.length = f.width)
-    (hw : 0 < f.width) (h6 : k = .t → f.width % 6 = 0) :
+    (hw : 0 < f.width) (h6 : k = .t → ∀ b ∈ bits.drop (bits.length / 6 * 6), b = false) :
     ∃ v, decodeField env f bits = .ok v ∧ check E.membersOf k bits v = true := by
   have _ := hw
   unfold kindOf at hk
@@ -259,7 +291,7 @@ theorem decodeField_spec (env : Env) (E : EnumInfo) (htab : TablesOk env E = tru
     cases hk
     refine ⟨.str (text bits), ?_, by simp [check]⟩
     rw [decodeField_of_attr_none _ _ _ ha, ht, decodeRaw_unsigned _ _ hs, hd,
-      decodeAscii6_eq_text bits (by rw [hlen]; exact h6 rfl)]; rfl
+      decodeAscii6_eq_text bits (h6 rfl)]; rfl
   case h_5 hd hs ht ha =>
     cases hk
     refine ⟨.bytes (toBytes bits), ?_, by simp [check]⟩
@@ -304,11 +336,18 @@ theorem totalWidth_cons (l : LField) (L : List LField) :
     totalWidth (l :: L) = l.width + totalWidth L := by
   simp [totalWidth]
 
+/-- sub-character padding bits of text fields are zero (the quantifier of C01/C08) -/
+def TextPaddingZero (L : List LField) (bits : Bits) : Prop :=
+  ∀ p ∈ Spec.offsets 0 L, p.1.kind = .t →
+    ∀ b ∈ (((bits.drop p.2).take p.1.width).drop (p.1.width / 6 * 6)), b = false
+
 /-- the per-offset form of the per-table statement, for an arbitrary start offset -/
 theorem offDecode_agrees (env : Env) (E : EnumInfo) (htab : TablesOk env E = true) (bits : Bits) :
     ∀ (fs : List Field) (L : List LField) (off : Nat),
       tableShape E fs = layoutShape L →
-      (∀ l ∈ L, 0 < l.width ∧ (l.kind = .t → l.width % 6 = 0)) →
+      (∀ l ∈ L, 0 < l.width) →
+      (∀ p ∈ Spec.offsets off L, p.1.kind = .t →
+        ∀ b ∈ (((bits.drop p.2).take p.1.width).drop (p.1.width / 6 * 6)), b = false) →
       off + totalWidth L = bits.length →
       ∃ kv, sequenceE (offFields env bits off fs) = .ok kv ∧
         kv.map (·.1) = L.map (·.name) ∧
@@ -317,18 +356,18 @@ theorem offDecode_agrees (env : Env) (E : EnumInfo) (htab : TablesOk env E = tru
   intro fs
   induction fs with
   | nil =>
-    intro L off hshape _ _
+    intro L off hshape _ _ _
     cases L with
     | nil => exact ⟨[], rfl, rfl, by simp [offsets]⟩
     | cons l L => simp [tableShape, layoutShape] at hshape
   | cons f fs ih =>
-    intro L off hshape hw hlen
+    intro L off hshape hw hpad hlen
     cases L with
     | nil => simp [tableShape, layoutShape] at hshape
     | cons l L =>
       simp only [tableShape, layoutShape, List.map_cons, List.cons.injEq, Prod.mk.injEq] at hshape
       obtain ⟨⟨hname, hwidth, hkind⟩, hrest⟩ := hshape
-      obtain ⟨hpos, h6⟩ := hw l (by simp)
+      have hpos := hw l (by simp)
       rw [totalWidth_cons] at hlen
       have hoff : ¬ off ≥ bits.length := by omega
       have hslice : fieldSlice bits off f.width = (bits.drop off).take l.width := by
@@ -337,10 +376,16 @@ theorem offDecode_agrees (env : Env) (E : EnumInfo) (htab : TablesOk env E = tru
         omega
       have hsl : ((bits.drop off).take l.width).length = f.width := by
         simp only [List.length_take, List.length_drop]; omega
+      have h6 : l.kind = .t → ∀ b ∈ ((bits.drop off).take l.width).drop
+          (((bits.drop off).take l.width).length / 6 * 6), b = false := by
+        intro hk
+        rw [hsl, hwidth]
+        exact hpad (l, off) (by simp [offsets]) hk
       obtain ⟨v, hv, hchk⟩ := decodeField_spec env E htab f l.kind hkind
-        ((bits.drop off).take l.width) hsl (by omega) (by rw [hwidth]; exact h6)
+        ((bits.drop off).take l.width) hsl (by omega) h6
       obtain ⟨kv, hkv, hnames, hall⟩ := ih L (off + f.width) hrest
-        (fun l' hl' => hw l' (List.mem_cons_of_mem _ hl')) (by omega)
+        (fun l' hl' => hw l' (List.mem_cons_of_mem _ hl'))
+        (fun p hp => hpad p (by rw [hwidth] at hp; simp [offsets, hp])) (by omega)
       refine ⟨(f.name, v) :: kv, ?_, ?_, ?_⟩
       · simp only [offFields, hoff, if_false, hslice, hv, sequenceE, hkv]
       · simp [hname, hnames]
@@ -355,11 +400,38 @@ theorem offDecode_agrees (env : Env) (E : EnumInfo) (htab : TablesOk env E = tru
 layout's total width decodes to a message that agrees with the layout, field by field. -/
 theorem seqDecode_agrees (env : Env) (E : EnumInfo) (htab : TablesOk env E = true)
     (fs : List Field) (L : List LField) (hshape : tableShape E fs = layoutShape L)
-    (hw : ∀ l ∈ L, 0 < l.width ∧ (l.kind = .t → l.width % 6 = 0))
-    (bits : Bits) (hlen : bits.length = totalWidth L) :
+    (hw : ∀ l ∈ L, 0 < l.width)
+    (bits : Bits) (hlen : bits.length = totalWidth L) (hpad : TextPaddingZero L bits) :
     ∃ kv, seqDecode env bits 0 fs = .ok kv ∧ Agrees E.membersOf L bits kv := by
   rw [seqDecode_eq_off]
-  obtain ⟨kv, h1, h2, h3⟩ := offDecode_agrees env E htab bits fs L 0 hshape hw (by omega)
+  obtain ⟨kv, h1, h2, h3⟩ := offDecode_agrees env E htab bits fs L 0 hshape hw hpad (by omega)
   exact ⟨kv, h1, h2, h3⟩
+
+/-! ## `get_int` on slices that lie inside the payload -/
+
+/-- `get_int(data, lo, hi)` is the plain value of the slice when the slice lies inside the payload -/
+theorem getInt_eq (bits : Bits) (lo hi : Nat) (h : hi ≤ bits.length) (hl : lo ≤ hi) :
+    getInt bits lo hi = toNat ((bits.drop lo).take (hi - lo)) := by
+  unfold getInt
+  have hlen : ((bits.drop lo).take (hi - lo)).length = hi - lo := by
+    simp only [List.length_take, List.length_drop]; omega
+  have := fromBytes_shift ((bits.drop lo).take (hi - lo))
+  rw [hlen] at this
+  exact this
+
+/-- a single-bit `get_int` is the bit -/
+theorem getInt_bit (bits : Bits) (i j : Nat) (hj : j = i + 1) (h : j ≤ bits.length) :
+    getInt bits i j = bitAt bits i := by
+  subst hj
+  rw [getInt_eq bits i (i + 1) h (by omega)]
+  simp [bitAt]
+
+theorem bitAt_cases (bits : Bits) (i : Nat) : bitAt bits i = 0 ∨ bitAt bits i = 1 := by
+  unfold bitAt
+  have h := toNat_lt ((bits.drop i).take 1)
+  have h1 : ((bits.drop i).take 1).length ≤ 1 := by
+    simp only [List.length_take]; omega
+  have h2 : 2 ^ ((bits.drop i).take 1).length ≤ 2 ^ 1 := Nat.pow_le_pow_right (by decide) h1
+  omega
 
 end Model
